@@ -25,6 +25,7 @@ type Contract struct {
 	TreeObserver bool   // reads tree structure: result is stable until the next tree mutation on the path
 	Pre          string // precondition-bearing callee (deny-list, C09)
 	OkNonNil     []int  // result indexes that are non-nil whenever the callee's error result is nil
+	LenRes0      bool   // result 0 is len(argument 0) whenever the error result is nil ("fills the whole slice or fails")
 	Fresh        bool   // results are newly created objects: writing them does not write the arguments
 	ConcSafeRecv bool   // documented safe for concurrent use on a shared receiver, and does not change what the receiver denotes
 	Note         string
@@ -128,7 +129,7 @@ var contracts = map[string]*Contract{
 	"crypto/rsa.DecryptOAEP":                {Fresh: true, Writes: []int{0}},
 	"crypto/rsa.DecryptPKCS1v15":            {Fresh: true},
 	"crypto/aes.NewCipher":                  {Fresh: true, OkNonNil: []int{0}},
-	"crypto/rand.Read":                      {Writes: []int{0}, Note: "fills the whole slice or returns an error"},
+	"crypto/rand.Read":                      {Writes: []int{0}, LenRes0: true, Note: "fills the whole slice or returns an error: n == len(b) iff err == nil"},
 	// --- std: url / http / template
 	"net/url.Parse":                     {Fresh: true, OkNonNil: []int{0}},
 	"(*net/url.URL).Query":              {Fresh: true, NonNil: []int{0}},
